@@ -57,7 +57,10 @@ ASSUMPTIONS = ["token patterns never match the empty string (the real tokenizer 
                "that every match advanced",
                "every match of `re` ends inside its line (hypothesis `ReIn` of tok_orig_text / node_orig_text; checked "
                "by the driver on every request: `tableOk`)",
-               "lines of a list-of-lines input contain no '\\n'",
+               "a list (tuple, iterable) of lines is the text split at its newlines: its lines contain no '\\n'. Lines "
+               "that KEEP their line end (a file object, readlines()) are outside: get_orig_text(['ab\\n', 'cd\\n']) of "
+               "the root is 'ab\\n\\ncd' on the real code (the lines are joined by '\\n'; a '\\n' inside a line is then an "
+               "ordinary blank character of that line) - never generated, not covered by the theorems",
                "str input: the theorems about tokens cover the right-stripped lines (what the tokenizer iterates over); "
                "trailing whitespace of a line belongs to no token",
                "node_orig_text / parse_node_orig_text: the input is not the list of zero lines",
@@ -183,6 +186,23 @@ CONFIGS = [
          lexW=["aaa", "x86", "_"], lexN=['"bb"', "'+ -'"], lexS=["-"],
          fill=["/* c */", "// e\n", "/*\n c\n*/"], extra=["class", "+", "*", "/", "(", ")", "/*", "*/"], bad=["1", "'"],
          alpha="ax_ \"'+-*/()\n1"),
+    # span matchers whose BODY part restricts what may stand in front of the closer: the matcher has to match AT the
+    # current column (anchored), a closer further right on the line with a shorter body is not the end of the span -
+    # string literal with escapes (an escaped quote does not close it), here-document whose closer must start the
+    # line, the comment matcher for which `**/` (even run of `*`) is not a closer
+    dict(name="body-restricting-spans",
+         pat=r"""(?P<SPACE>\s+)|(?P<STR>")|(?P<HEREDOC><<EOT)|(?P<COMMENT_ML>/\*)|(?P<WORD>[A-Za-z]+)|(?P<NUM>[0-9]+)
+                 |(?P<SEMI>;)|(?P<EQ>=)""",
+         spans={"STR": r'''(?P<STR_BODY>(\\.|[^"\\])*)"''', "HEREDOC": r"(?P<DOC>)EOT", "COMMENT_ML": _ML},
+         syn={"STR": "TEXT", "HEREDOC": "TEXT", "COMMENT_ML": "COMMENT"},
+         W="WORD", N="TEXT", S="SEMI",
+         lexW=["ab", "a", "EOT"],
+         lexN=['"s t"', '""', '"a \\" b"', '"say \\"hi\\" and\ngo on"', '"a\\\\"', '"x \\\n\\" y"', '"\\"\n\\"\n"',
+               "<<EOT\nab\nEOT", "<<EOT\n a EOT b\nEOT", "<<EOT\nEOT", "<<EOT\n EOT\n\nEOT", "<<EOT EOT;\nEOT", "<<EOTEOT"],
+         lexS=[";"],
+         fill=["/* x */", "/* **/ x */", "/***/\n*/", "/* a\n b **/ c\n*/", "/**/"],
+         extra=['"', "EOT", "<<EOT", "=", "12", "*/", "/*", '\\"'], bad=["?", "\\", "<", "*"],
+         alpha='a" \\;<EOT*/\n'),
 ]
 
 # W, N, S are replaced by the configuration's terminals
@@ -662,12 +682,20 @@ def _lexeme_problem(rx, bodies, olines, strip, t, s, e, region):
     if m.lastgroup in bodies:
         if e[0] == s[0] and e[1] - 1 < m.end():
             return "tok-orig-text: span token %s ends inside its opener" % t
-        eline = ln(e[0] - 1)
-        lo = m.end() if e[0] == s[0] else 0
-        for d in range(lo, e[1]):
-            b = bodies[m.lastgroup].match(eline, d)
-            if b is not None and b.end() == e[1] - 1:
-                return None
+        # "the whole region from opener to closer": the closer is where the span matcher of the opener's group matches
+        # AT the position the scan has reached (behind the opener on its line, column 0 on every later line; a line
+        # with nothing left to scan is stepped over) - not a closer met earlier or later
+        c = m.end()
+        for i in range(s[0] - 1, len(olines)):
+            l = ln(i)
+            if c < len(l):
+                b = bodies[m.lastgroup].match(l, c)
+                if b is not None:
+                    if (i + 1, b.end() + 1) == e:
+                        return None
+                    return ("tok-orig-text: span token %s does not run from its opener to the closer: the matcher of %s "
+                            "matches at %s and ends at %s" % (t, m.lastgroup, (i + 1, c + 1), (i + 1, b.end() + 1)))
+            c = 0
         return "tok-orig-text: span token %s does not end at a closer" % t
     if s[0] != e[0] or m.end() != e[1] - 1:
         return "tok-orig-text: %s: get_orig_text %r is not the lexeme %r" % (t, region, m.group(0))
@@ -1036,6 +1064,61 @@ def _tempt(rng, s):
     return s, places
 
 
+_WRAPS = {}
+
+
+def _wraps(cfg):
+    """(opener, closer) of every span kind of the configuration, found with the harness's own `re`"""
+    if cfg["name"] in _WRAPS:
+        return _WRAPS[cfg["name"]]
+    rx, bodies = _rx(cfg)
+    cands = cfg["fill"] + cfg["lexN"] + cfg["extra"]
+    out = _WRAPS.setdefault(cfg["name"], [])
+    for k in sorted(bodies):
+        for t in cands:
+            m = rx.match(t)
+            if m is None or m.lastgroup != k:
+                continue
+            op = m.group(0)
+            for t2 in cands:
+                l = t2.split("\n")[-1]
+                for d in range(len(l)):
+                    b = bodies[k].match(l, d)
+                    if b is not None and b.end() == len(l) and b.end(b.lastgroup) < len(l):
+                        out.append((op, l[b.end(b.lastgroup):]))
+                        break
+                else:
+                    continue
+                break
+            break
+    return out
+
+
+def _repeat(rng, cfg, s):
+    """texts with IDENTICAL lines in different roles: a line copied to another place (ordinary / inside a span token
+    that happens to cover the place), or a block of lines copied and wrapped into a span token (commented-out code, a
+    statement quoted in a multi-line literal), before or after the original"""
+    lines = s.split("\n")
+    wraps = _wraps(cfg)
+    n = len(lines)
+    if wraps and rng.random() < 0.7:
+        i = rng.randrange(n)
+        j = min(n, i + rng.choice([1, 1, 2, 3]))
+        op, cl = rng.choice(wraps)
+        k = rng.randrange(j, n + 1) if rng.random() < 0.7 else rng.randrange(0, i + 1)
+        block = [rng.choice(["", "", " "]) + op + rng.choice(["", "", " x"])] + lines[i:j] + \
+                [rng.choice(["", "", "y ", "  "]) + cl + rng.choice(["", "", " "])]
+        if rng.random() < 0.3 and k > 0:                 # the opener stands behind the tokens of a line
+            block[0] = lines[k - 1] + " " + block[0].strip()
+            lines[k - 1:k] = block
+        else:
+            lines[k:k] = block
+        return "\n".join(lines), "span-wrapped-copy"
+    for _ in range(rng.choice([1, 1, 2])):
+        lines.insert(rng.randrange(len(lines) + 1), lines[rng.randrange(len(lines))])
+    return "\n".join(lines), "line-copy"
+
+
 def _gen_gots(rng, lines, n):
     out = []
     nl = len(lines)
@@ -1098,6 +1181,8 @@ def gen_cases(rng, tier):
         if rng.random() < 0.22:
             s, places = _tempt(rng, s)
             meta["tempt"] = sorted(places)
+        if rng.random() < 0.12:
+            s, meta["rep"] = _repeat(rng, cfg, s)
         kind = rng.choice("sssslllt")
         text = s if kind == "s" else s.split("\n")
         olines = text.split("\n") if kind == "s" else text
@@ -1187,6 +1272,8 @@ def tags(case, replies):
         yield "has:non-ascii"
     for w in m.get("tempt", ()):
         yield "tempt:" + w
+    if "rep" in m:
+        yield "rep:" + m["rep"]
     flat = "\n".join(lines)
     if flat[:1] == "\ufeff":
         yield "has:bom-at-start"
@@ -1208,6 +1295,35 @@ def tags(case, replies):
         sp = [x.split("/")[0].split(".") for x in r[3:].split(";")]
         if any(a[0] != a[2] for a in sp):
             yield "has:multi-line-span-token"
+            vis = _vis_lines(p["kind"], p["text"])
+            inner = set()
+            for a in sp:
+                if a[0] != a[2]:
+                    inner.update(i for i in range(int(a[0]) + 1, int(a[2]) + 1) if 1 <= i <= len(vis))   # continuation lines
+            rest = {vis[i - 1] for i in range(1, len(vis) + 1) if i not in inner and vis[i - 1].strip()}
+            if any(vis[i - 1] in rest for i in inner):
+                yield "has:span-continuation-line-equal-to-an-ordinary-line"
+        rx, bodies = _rx(CONFIGS[p["cfg"]])
+        vis = _vis_lines(p["kind"], p["text"])
+        for a in sp:
+            # a span token whose matcher finds a closer (with a shorter body) to the right of a position where the
+            # anchored match fails: the body part of the matcher decides
+            sl, sc, el = int(a[0]), int(a[1]), int(a[2])
+            m0 = rx.match(vis[sl - 1], sc - 1) if 1 <= sl <= len(vis) and 1 <= sc <= len(vis[sl - 1]) else None
+            if m0 is None or m0.lastgroup not in bodies:
+                continue
+            bm, c, hit = bodies[m0.lastgroup], m0.end(), False
+            for i in range(sl - 1, min(el, len(vis))):
+                l = vis[i]
+                if c < len(l):
+                    if bm.match(l, c) is not None:
+                        break
+                    if bm.search(l, c) is not None:
+                        hit = True
+                c = 0
+            if hit:
+                yield "has:span-body-steps-over-a-closer"
+                break
     for k in ("tree1", "tree0"):
         if k in m:
             yield "%s:%s" % (k, m[k])
@@ -1241,15 +1357,19 @@ LEVEL_TEXT = (
     "C01 model with the positions the code attaches while parsing) whose position offsets are regenerated from "
     "ak/llparser.py on every run: adjacency within a line, column 1 / later line for the first token of a line, "
     "monotone non-empty spans, get_orig_text = lexeme (span token: region opener..closer) = slice of the whole text by "
-    "character offsets (str with rstrip and list-of-lines input), the tokens cover every character exactly once, "
+    "character offsets (str with rstrip, and list-of-lines input whose lines contain no newline character: a list of "
+    "lines means the text split at its newlines; lines that KEEP their '\\n' - a file object, readlines() - are "
+    "EXCLUDED, not generated and not covered: on the real code get_orig_text(['ab\\n', 'cd\\n']) of the root gives "
+    "'ab\\n\\ncd', the lines being joined by '\\n'), the tokens cover every character exactly once, "
     "node span = (start of first token, end of last token) or empty at the first token not consumed before it, for "
     "every node of every tree the parse can return through any roll-backs (parse_node_span) and for every tree "
     "shape (node_span), get_orig_text of nodes, LexicalError at the first and only reachable unmatched character "
     "(line 1-based, column 0-based) and its converse, ParsingError.src_pos = start of a token, totality (fuel) of the "
     "tokenizer model. Model = code is established by a differential run of the compiled model against the real "
-    "tokenizer, get_orig_text and parser (10 configurations incl. one written in verbose style, several span kinds under one synonym and token patterns with context assertions (^, \\b, look-behind, $), one where BOM / NUL / zero-width characters are blanks and combining marks / astral characters are letters, texts with such characters at the start of the text, of a line, inside tokens, '\\r' and '\\r\\n' line ends; 17 grammars incl. 8 that roll back into empty / all-nullable "
+    "tokenizer, get_orig_text and parser (11 configurations incl. one written in verbose style, one whose span matchers restrict the BODY in front of the closer - string literal with escapes, here-document whose closer must start the line, comment for which `**/` is no closer: the matcher must match AT the scan position, tag has:span-body-steps-over-a-closer -, texts with identical lines in different roles - a line or block copied to another place or wrapped into a span token (commented-out code, a statement quoted in a multi-line literal), tags rep:* and has:span-continuation-line-equal-to-an-ordinary-line -, several span kinds under one synonym and token patterns with context assertions (^, \\b, look-behind, $), one where BOM / NUL / zero-width characters are blanks and combining marks / astral characters are letters, texts with such characters at the start of the text, of a line, inside tokens, '\\r' and '\\r\\n' line ends; 17 grammars incl. 8 that roll back into empty / all-nullable "
     "alternatives and a ProdSequence, both smart_factorization values, str / list / tuple input); the oracle restates "
-    "the property on the real objects. Caveats: for a `str` the token theorems speak about the right-stripped lines "
+    "the property on the real objects (a span token ends at the FIRST position where the matcher of its opener's group "
+    "matches anchored at the scan position: behind the opener, then column 0 of each later line). Caveats: for a `str` the token theorems speak about the right-stripped lines "
     "the tokenizer iterates over (trailing blanks of a line are in no token); the orig-text theorems of nodes assume "
     "the input is not the list of zero lines; non-emptiness of every token is proved from the model, not assumed.")
 LEVEL_NOTE = (
